@@ -47,7 +47,7 @@ Notation attp := (PnFacts.attp aw).
 Notation succs := (PnFacts.succs basis).
 Notation dmv := (Dfpn.dmv basis).
 
-Hypothesis S_step : forall p m q, Sp p -> In m (all_moves p) -> dmv p m = Ok q -> Sp q.
+Hypothesis S_step : forall p m q, Sp p -> term p = None -> In m (all_moves p) -> dmv p m = Ok q -> Sp q.
 Hypothesis S_small : forall p, Sp p -> size p <= 8.
 (* NoCollisionOn Sp: positions of Sp with the same hash are the same for the game *)
 Hypothesis S_hash : forall p q, Sp p -> Sp q -> hash_of p = hash_of q ->
@@ -354,7 +354,7 @@ Qed.
 
 Definition covered (cs : list dchild) (q : position) : Prop := exists ch, In ch cs /\ ch_g ch = q.
 
-Lemma gen_children_ok g killer : Sp g ->
+Lemma gen_children_ok g killer : Sp g -> term g = None ->
   forall ms s acc s' cs,
     table_ok s -> Forall (child_ok g) acc -> (forall m, In m ms -> In m (all_moves g)) ->
     gen_children basis aw g killer ms s acc = (s', cs) ->
@@ -362,7 +362,7 @@ Lemma gen_children_ok g killer : Sp g ->
     (((forall q, covered acc q -> covered cs q) /\ (forall m q, In m ms -> dmv g m = Ok q -> covered cs q)) \/
      (exists ch, In ch cs /\ cdelta ch = 0)).
 Proof.
-  intros Hg ms. induction ms as [|m r IH]; intros s acc s' cs Ht Hacc Hms E; cbn [gen_children] in E.
+  intros Hg Htg ms. induction ms as [|m r IH]; intros s acc s' cs Ht Hacc Hms E; cbn [gen_children] in E.
   - injection E as <- <-. split; [reflexivity|]. split; [assumption|]. left. split; [auto|intros ? ? []].
   - destruct (dmv g m) as [p| |] eqn:Em.
     + destruct (child_entry aw s p) as [s1 e] eqn:Ec.
